@@ -178,6 +178,22 @@ func init() {
 			effects: map[string]string{"tp.history.Load": ""},
 			skip:    map[string]bool{}, retVals: true})
 
+		c18Effects(s, e, c18EffSpec{rel: sec, fn: "ParseContentSecurity", lean: "parseContentSecurityEffects", depth: 0,
+			params: "(emptyField noKey decryptErr keyErr typeErr : Bool)",
+			conds: map[string]string{"len(fingerprint) == 0 || len(secret) == 0 || len(signature) == 0": "emptyField", "!ok": "noKey",
+				"decrypter.DecryptBase64: err != nil": "decryptErr", "base64.StdEncoding.DecodeString: err != nil": "keyErr",
+				"strconv.Atoi: err != nil": "typeErr"},
+			effects: map[string]string{"r.Header.Get": "", "httpx.ParseHeader": "", "decrypter.DecryptBase64": "",
+				"base64.StdEncoding.DecodeString": "", "strconv.Atoi": ""},
+			skip: map[string]bool{}, retVals: true, plainAssigns: true})
+		c18Effects(s, e, c18EffSpec{rel: sec, fn: "VerifySignature", lean: "verifySignatureEffects", depth: 0,
+			params: "(badTimestamp outside sigEqual : Bool)",
+			conds: map[string]string{"strconv.ParseInt: err != nil": "badTimestamp",
+				"seconds+toleranceSeconds < now || now+toleranceSeconds < seconds": "outside",
+				"securityHeader.Signature == actualSignature": "sigEqual"},
+			effects: map[string]string{"strconv.ParseInt": "", "getPathQuery": "", "codec.HmacBase64": ""},
+			skip:    map[string]bool{"time.Now().Unix": true, "int64": true, "strings.Join": true, "logc.Infof": true}, retVals: true})
+
 		// ---- round 5c: ParseToken's retry structure as a TYPED call list (symbolic execution: which secret each call gets)
 		c18ParseTokenCalls(s, e, tokp, "TokenParser.ParseToken", "parseTokenCalls")
 
@@ -892,6 +908,7 @@ type c18EffSpec struct {
 	conds, tags, effects  map[string]string
 	skip                  map[string]bool
 	retVals               bool // returns with values are effects ("return <values>")
+	plainAssigns          bool // `x := m[k]` is plumbing (skipped), `v, ok := m[k]` is an effect
 }
 
 func c18Effects(s *source, e *emitter, sp c18EffSpec) {
@@ -958,6 +975,27 @@ func c18Effects(s *source, e *emitter, sp c18EffSpec) {
 		return "", false, false
 	}
 	qualified := map[*ast.IfStmt]string{}
+	// an `if` right after `x, err := f(…)`: its condition may be named "<f>: <condition>" in the table
+	ast.Inspect(body, func(n ast.Node) bool {
+		blk, ok := n.(*ast.BlockStmt)
+		if !ok {
+			return true
+		}
+		for i := 1; i < len(blk.List); i++ {
+			is, ok := blk.List[i].(*ast.IfStmt)
+			if !ok || is.Init != nil {
+				continue
+			}
+			if as, ok := blk.List[i-1].(*ast.AssignStmt); ok && len(as.Rhs) == 1 {
+				if call, ok := as.Rhs[0].(*ast.CallExpr); ok {
+					if c, ok := sp.conds[s.src(call.Fun)+": "+s.src(is.Cond)]; ok {
+						qualified[is] = c
+					}
+				}
+			}
+		}
+		return true
+	})
 	var trans func(list []ast.Stmt) string
 	one := func(x ast.Expr, st ast.Stmt, prefix string, rest []ast.Stmt) string {
 		txt, isEff, isSkip := callEffect(x, prefix)
@@ -982,6 +1020,16 @@ func c18Effects(s *source, e *emitter, sp c18EffSpec) {
 			if sp.retVals {
 				var rs []string
 				for _, r := range x.Results {
+					if cl, ok := r.(*ast.UnaryExpr); ok {
+						if lit, ok := cl.X.(*ast.CompositeLit); ok { // &T{F: v, …}: the type and the field assignments on one line
+							var fs []string
+							for _, el := range lit.Elts {
+								fs = append(fs, strings.Join(strings.Fields(s.src(el)), " "))
+							}
+							rs = append(rs, "&"+s.src(lit.Type)+"{"+strings.Join(fs, ", ")+"}")
+							continue
+						}
+					}
 					rs = append(rs, s.src(r))
 				}
 				return "[" + leanString("return "+strings.Join(rs, ", ")) + "]"
@@ -994,6 +1042,12 @@ func c18Effects(s *source, e *emitter, sp c18EffSpec) {
 		case *ast.AssignStmt:
 			if len(x.Rhs) != 1 {
 				return fail(st, "assignment")
+			}
+			if ix, ok := x.Rhs[0].(*ast.IndexExpr); ok && sp.plainAssigns {
+				if len(x.Lhs) == 2 { // v, ok := m[k]: the lookup decides, it is an effect
+					return "(" + leanString("lookup "+s.src(ix)) + " :: " + trans(rest) + ")"
+				}
+				return trans(rest)
 			}
 			return one(x.Rhs[0], st, "", rest)
 		case *ast.DeclStmt:
